@@ -4,6 +4,7 @@ From S4.Base Require Import Bytes.
 From S4.Model Require Import Calendar CliDt.
 From S4.Gen Require Import CliDtTables.
 From S4.Spec Require Import CalendarSpec CliDtRef CliDtSpec.
+From S4.Proofs Require Import CalendarProofs CliDtSpecProofs.
 Open Scope Z_scope.
 
 (* the model instantiated with the regenerated tables *)
@@ -62,11 +63,11 @@ Definition wf_opt (f : option form) : bool := match f with Some f => form_ok f |
 Definition spec_outcome (fa fb : option form) (ha hb : option string) (wf : bool) (tz now : Z) : outcome :=
   if negb (render_matches fa ha && render_matches fb hb) then (8, 0, 0)
   else if wf && negb (wf_opt fa && wf_opt fb) then (9, 0, 0)
-  else encode (spec_bounds fa fb tz now).
+  else encode (spec_bounds_fast fa fb tz now).
 Definition spec_bad (cs : list (option form * option form * option string * option string * bool * Z * Z * outcome))
   : list (N * outcome) :=
   flat_map (fun ic => let '(i, (fa, fb, ha, hb, wf, tz, now, impl)) := ic in
                       let s := spec_outcome fa fb ha hb wf tz now in
                       if outcome_eqb s impl then [] else [(i, s)]) (index_from 0 cs).
 Definition spec_ns (cs : list (option form * option form * Z * Z)) : list (N * (Z * Z)) :=
-  map (fun ic => let '(i, (fa, fb, tz, now)) := ic in (i, ns_of (spec_bounds fa fb tz now))) (index_from 0 cs).
+  map (fun ic => let '(i, (fa, fb, tz, now)) := ic in (i, ns_of (spec_bounds_fast fa fb tz now))) (index_from 0 cs).
